@@ -5,6 +5,7 @@ PLAN = {
     "C01": [dict(test="TestC01", quick=(2500, 16), thorough=(60000, 16), timeout_thorough=7200)],
     "C03": [dict(test="TestC03", quick=(2500, 16), thorough=(60000, 16), timeout_thorough=7200)],
     "C04": [dict(test="TestC04", quick=(2500, 16), thorough=(60000, 16), timeout_thorough=7200)],
+    "C05": [dict(test="TestC05", quick=(1500, 16), thorough=(30000, 16), timeout_thorough=7200)],
     "C07": [
         dict(test="TestC07N", quick=(6000, 8), thorough=(150000, 8), timeout_thorough=7200),
         dict(test="TestC07S", quick=(2000, 8), thorough=(40000, 8), timeout_thorough=7200),
@@ -39,6 +40,7 @@ RULES = {
     "C03": SIM_RULE + "Oracle at every correct commit callback: strict ValidateBlockConsensus on another correct node with the committing term's prev block/proof returns nil, the reference validator accepts, the block satisfies the proof's hash. Non-trivial = at commit time the committing node's commit log held a COMMIT from a Byzantine member/outsider or from another view, or the commit is in a view > 0.",
     "C04": SIM_RULE + "Oracle at every correct commit: block height = h, block valid flag set (a block every correct validator rejects is never committed), block satisfies the certified hash, a PREPREPARE for that hash and view signed by the view's leader exists in the history, and some correct member's ValidateBlockProposal approved it or a correct member proposed it. Non-trivial = a consumer-invalid proposal was delivered to a correct node and some correct node committed.",
     "C10": SIM_RULE + "Oracle over each correct node's send stream joined with its reference-validated inbox: <=1 proposal/PREPARE/COMMIT hash per (h,v), PREPARE only for a delivered proposal of that view's leader and never by the leader, COMMIT only with a prepared certificate or commit quorum for exactly (v,hash), VIEW_CHANGE views strictly increasing, no PREPREPARE/PREPARE below the current view. Non-trivial = two different proposals for one (h,v) were delivered, or a duplicated/replayed delivery, or a commit quorum before being prepared.",
+    "C05": "cases = (config as engine S, adversarial prefix of 0..60 generated steps, per-member remaining timer fraction, 0..3 Byzantine injections placed at generated timer firings of the suffix). Suffix in virtual time: all messages to the deciders D (correct live members at the lowest undecided height, weight >= Q else discarded and counted) are delivered FIFO before the earliest timer (base*2^view, exact integers) fires. Oracle: some member of D commits within |D|*(Vmax-Vmin+2n+4) timer firings, and if the committing view was proposed after the stabilisation point by a member of D, every member of D that stored its proposal commits. Non-trivial = views in D differ at stabilisation, or a member holds a prepared certificate, or a Byzantine injection happened in the suffix. Distinct = the whole case.",
     "C07": "Engine N: one real node in a generated state (committee 4..9, weights, leader order, 0..5 prefix steps: timeouts, valid proposals/NEW_VIEWs, prepares), then 1..3 candidate messages (NEW_VIEW, stand-alone PREPREPARE, VIEW_CHANGE to the node as leader) built VALID by reference builders and given 0..3 mutations from a 43-entry catalogue (header fields, sender, signatures, votes dropped/duplicated/unsigned/re-signed/outsider/other view-height-instance-type, proofs forged/other views/below quorum, embedded proposal fields, other/invalid block). Oracle: any effect (store, send, view move) of a NEW_VIEW implies ref.ValidNewView; PREPARE/adoption in v>0 only via NEW_VIEW; a leader's NEW_VIEW embeds only reference-valid votes of quorum weight. Engine S adds the same oracle as a monitor on every delivery of generated cluster executions. Non-trivial = candidate with exactly one mutation, or an unmutated candidate that was accepted (control). Distinct = the whole case.",
     "C08": "Engine N as C07 with candidates PREPREPARE/PREPARE/COMMIT/VIEW_CHANGE; oracle: any effect (Store* true, send, view move, commit) implies ref.mayInfluence (signature under the claimed sender's key, sender in committee, this instance and height, header tag = envelope, role fits, share valid, not stale, proof valid). Engine S: same oracle on every delivery of generated cluster executions. Non-trivial = exactly one mutation, or accepted control (N); a Byzantine/outsider message was stored (S).",
     "C09": "Engine N: node brought to prepared in generated views then timed out (voter), or fed 1..8 generated VIEW_CHANGE candidates (with genuine proofs of different views, mutated variants: block missing/other, proof dropped/forged/below quorum...) as leader (collector); engine S: every VIEW_CHANGE / NEW_VIEW a correct node emits in generated cluster executions. Oracle: VIEW_CHANGE sent while prepared carries a reference-valid proof of the highest prepared view + matching block; NEW_VIEW embeds exactly the stored votes, each still verifying, proposes the block of the highest-view valid proof, fresh proposal iff no vote carries a proof. Non-trivial = vote sent while prepared, or NEW_VIEW emitted with a proof among its votes (S); exactly one mutation or accepted control (N).",
@@ -54,6 +56,7 @@ ASSUMPTIONS = {
     ],
     "C03": [dict(test="TestC03", quick=(2500, 16), thorough=(60000, 16), timeout_thorough=7200)],
     "C04": [dict(test="TestC04", quick=(2500, 16), thorough=(60000, 16), timeout_thorough=7200)],
+    "C05": [dict(test="TestC05", quick=(1500, 16), thorough=(30000, 16), timeout_thorough=7200)],
     "C07": [
         dict(test="TestC07N", quick=(6000, 8), thorough=(150000, 8), timeout_thorough=7200),
         dict(test="TestC07S", quick=(2000, 8), thorough=(40000, 8), timeout_thorough=7200),
